@@ -304,6 +304,11 @@ func (fc *fileController) acquireReader(ctx context.Context, key uint16) (*contr
 func (fc *fileController) newReader(ctx context.Context, key uint16) (*controlledReader, error) {
 	_, span := fc.T.Bench(ctx, "new_reader")
 	defer span.End()
+	// The file must be opened while holding the reader-pool lock: garbage collection
+	// swaps the file under the pool's read lock, and a handle opened before the swap but
+	// registered after it would keep reading the replaced file.
+	fc.readers.Lock()
+	defer fc.readers.Unlock()
 	file, err := fc.FS.Open(
 		fileKeyToName(key),
 		os.O_RDONLY,
@@ -316,7 +321,6 @@ func (fc *fileController) newReader(ctx context.Context, key uint16) (*controlle
 		ReaderAtCloser:  file,
 		controllerEntry: newPoolEntry(key, fc.release, fc.Instrumentation),
 	}
-	fc.readers.Lock()
 	f, ok := fc.readers.files[key]
 	if !ok {
 		fc.readers.files[key] = &fileReaders{open: []controlledReader{r}}
@@ -325,7 +329,6 @@ func (fc *fileController) newReader(ctx context.Context, key uint16) (*controlle
 		fc.readers.files[key].open = append(fc.readers.files[key].open, r)
 		f.Unlock()
 	}
-	fc.readers.Unlock()
 	return &r, err
 }
 
